@@ -293,6 +293,27 @@ fn check_value_text(ctx: &mut Ctx, t: &[u8], seed: u64) {
             }
         }
     }
+    // owned results do not depend on the input buffer once the call has returned: the private copy
+    // of the input is overwritten and freed before the value is looked at
+    {
+        use crate::mon::common::parse_then_discard;
+        let o1 = parse_then_discard(&padded, |c| sonic_rs::from_slice::<OwnedLazyValue>(c).ok());
+        let o2 = parse_then_discard(&wrapped, |c| sonic_rs::get(c, sonic_rs::pointer!["k", 1]).ok().map(OwnedLazyValue::from));
+        let o3 = parse_then_discard(&wrapped, |c| sonic_rs::to_object_iter(c).next().and_then(|x| x.ok()).and_then(|(_, v)| v.into_array_iter()).and_then(|mut it| it.nth(1)).and_then(|x| x.ok()).map(OwnedLazyValue::from));
+        let o4 = parse_then_discard(&padded, |c| sonic_rs::from_slice::<LazyValue>(c).ok().and_then(|lv| Value::try_from(lv).ok()).and_then(|v| sonic_rs::to_lazyvalue(&v).ok()));
+        for (name, o) in [("from_slice:input-discarded", o1), ("get.into:input-discarded", o2), ("iter.into:input-discarded", o3)] {
+            match o {
+                Some(ov) => {
+                    check_view(ctx, name, "OwnedLazyValue", t, transcript(&ov), sero(&ov));
+                    owned_children(ctx, name, &ov, &d.root, t);
+                }
+                None => ctx.fail(&format!("reject-valid:{}", name), "no value".into()),
+            }
+        }
+        if o4.is_none() {
+            ctx.fail("reject-valid:try_from.to_lazyvalue:input-discarded", "no value".into());
+        }
+    }
     // OwnedLazyValue from serde
     match sonic_rs::from_str::<OwnedLazyValue>(ps) {
         Ok(ov) => {
